@@ -20,7 +20,7 @@ LEVEL = 'exploration'
 RULE = ('Histories: a pool of 49 scenarios (sharing their table objects) (every query kind of C01-C05, LIKE with many patterns, aggregates, UNNEST, DISTINCT [COUNT], joins, UPDATE, parse errors, runtime '
         'errors at record k, IO errors, query_csv, pandas); every ordered pair (quick) and every ordered triple (thorough) run in one interpreter, plus Hypothesis '
         'rule-based state machines over sequences of <= 6 (quick) / <= 12 (thorough) scenarios; invariant after every step: the result (output, header, warnings, error) '
-        'equals the result of the same scenario run alone in a FRESH interpreter (one sub-process per scenario). Interleavings: two queries of different kinds run in two '
+        'equals the result of the same scenario run alone in a FRESH interpreter (one sub-process per scenario). Consecutive rbql-js queries: every ordered pair and a sample of triples (thorough: all) of a 29-scenario JS pool in one node process, each step compared with the scenario run in a fresh node process. Interleavings: two queries of different kinds run in two '
         'threads under a cooperative scheduler that switches only at get_record (input and join table) / write / set_header / finish; every interleaving is enumerated by '
         're-execution (depth-first over the binary choice points) - tables of 2 records (quick), 3 and 4 records (thorough); both results must equal the run-alone results. '
         'Non-trivial = a history containing a failing query followed by a succeeding one of the same kind; an interleaving with a switch while both queries are mid-flight. '
@@ -35,7 +35,7 @@ NAMES = ['k', 'n', 'tags']
 
 
 def plan(tier):
-    return {'stages': [('shard_histories', 4), ('shard_interleavings', 12)], 'timeout_s': 5400}
+    return {'stages': [('shard_histories', 3), ('shard_js_histories', 1), ('shard_interleavings', 12)], 'timeout_s': 5400}
 
 
 def S(name, query, A=T1, B=None, a_names=None, b_names=None, kind='table'):
@@ -206,6 +206,66 @@ def shard_histories(shard, nshards, tier, seed, scratch):
 
 
 # ---------------------------------------------------------------------------------------------
+# consecutive queries in one rbql-js process (sequential isolation; the module-global context of rbql-js
+# rules out concurrent use, which is documented and not claimed)
+
+JS_POOL = [
+    ('select', 'select a1, a2'), ('select-expr', "select a1 + '-' + a2, a3.length, NR, NF"), ('where', 'select * where parseInt(a2) > 2'), ('except', 'select * except a2'),
+    ('order', 'select a1, a2 order by parseInt(a2) desc'), ('distinct', 'select distinct a1'), ('distinct-count', 'select distinct count a1'), ('top', 'select top 2 a1'),
+    ('unnest', "select a1, UNNEST(a3.split(','))"), ('agg', 'select a1, count(*), sum(parseInt(a2)), max(a2) group by a1'), ('agg2', 'select COUNT(*), AVG(a2), MEDIAN(a2)'),
+    ('like', "select a1, like(a3, 'x%'), like(a1, '_')"), ('like-upper', "select a1, like(a3, 'X%'), like(a1, 'A')"), ('join', 'select a1, b2 join b on a1 == b1'), ('left-join', 'select a1, b2 left join b on a1 == b1'),
+    ('update', "update a3 = a1 + a2, a1 = 'U' where a1 != 'b'"), ('update-2', "update a1 = 'x', a2 = 'y'"), ('update-set', 'update set a2 = NU'), ('update-unknown-field', "update a1 = 10, a.price = 100"),
+    ('update-bad-start', "update zz = 1"), ('parse-error', 'select a1 where a1 = 1'), ('syntax-error', 'select a1 +'), ('runtime-error', 'select a1, nosuchfn(a2)'), ('runtime-error-3', "select a1, (NR == 3 ? nosuchfn(a2) : a2)"),
+    ('agg-misuse', 'select MAX(a2) + 1'), ('two-unnest', 'select UNNEST([1]), UNNEST([2])'), ('strict-fails', 'select a1 strict left join b on a1 == b1'), ('header', 'select a.k, a["tags"] as t, NR'),
+    ('join-unknown-field', 'select a1 join b on a1 == b9'),
+]
+
+
+def js_run(drv, idx):
+    name, q = JS_POOL[idx]
+    names = NAMES if name == 'header' else None
+    r = drv.query_table(q, copy.deepcopy(T1), copy.deepcopy(T2), names, ['k', 'w'] if names else None)
+    return {'out': r['out'], 'header': r['header'], 'warnings': r['warnings'], 'error': r['error'], 'A_after': r['A_after']}
+
+
+def shard_js_histories(shard, nshards, tier, seed, scratch):
+    from .. import jsdriver
+    stats = Stats()
+    failures = []
+    n = len(JS_POOL)
+    fresh = {}
+    for i in range(n):
+        d = jsdriver.Driver()     # a fresh node process per scenario
+        try:
+            fresh[i] = js_run(d, i)
+        finally:
+            d.close()
+    drv = jsdriver.Driver()
+    try:
+        seqs = [[i, j] for i in range(n) for j in range(n)]
+        step = 1 if tier == 'thorough' else 7
+        cnt = 0
+        for t in itertools.product(range(n), repeat=3):
+            cnt += 1
+            if cnt % step == 0:
+                seqs.append(list(t))
+        for seq in seqs:
+            for pos, i in enumerate(seq):
+                r = js_run(drv, i)
+                if r != fresh[i]:
+                    failures.append({'leg': 'js-histories', 'clause': 'js-history-changes-result',
+                                     'detail': {'history': [JS_POOL[j][1] for j in seq], 'step': pos + 1, 'in_history': r, 'fresh_process': fresh[i]}, 'case': {'kind': 'js-history', 'seq': seq}})
+                    break
+            nt = any(fresh[seq[x]]['error'] is not None and fresh[seq[y]]['error'] is None for x in range(len(seq)) for y in range(x + 1, len(seq)))
+            stats.case(seq, nt, ['js-history-len-%d' % len(seq)], sample={'history': [JS_POOL[j][0] for j in seq]}, distinct_by_construction=True)
+            if failures:
+                break
+    finally:
+        drv.close()
+    return {'stats': stats.export(), 'failures': failures[:1]}
+
+
+# ---------------------------------------------------------------------------------------------
 # interleavings
 
 def ispec(name, query, n, B=None, a_names=None, b_names=None):
@@ -289,7 +349,22 @@ def replay(case, clause=None):
     import tempfile, shutil
     d = tempfile.mkdtemp(prefix='vf_c16_')
     try:
-        if case.get('kind') == 'history':
+        if case.get('kind') == 'js-history':
+            from .. import jsdriver
+            drv = jsdriver.Driver()
+            try:
+                for i in case['seq']:
+                    f = jsdriver.Driver()
+                    try:
+                        fr = js_run(f, i)
+                    finally:
+                        f.close()
+                    r = js_run(drv, i)
+                    if r != fr:
+                        raise Violation('js-history-changes-result', {'history': [JS_POOL[j][1] for j in case['seq']], 'in_history': r, 'fresh_process': fr})
+            finally:
+                drv.close()
+        elif case.get('kind') == 'history':
             idx = [[s['name'] for s in POOL].index(nm) for nm in case['seq']]
             fresh = fresh_results(sorted(set(idx)), d)
             check_history(idx, fresh, d)
